@@ -38,6 +38,9 @@ var controlExpect = []struct {
 	{"R6", "CtlFloat#float-", "violated"},
 	{"R11", "CtlLocalTimeYear#local-time-Year", "violated"},
 	{"R11", "CtlLocalTimeFormat#local-time-Format", "violated"},
+	{"R12", "CtlSharedNumberMutated#mutates-shared-number", "violated"},
+	{"R12", "ctlPrefixRoomy#appended-prefix", "violated"},
+	{"R12", "ctlPrefixTight#appended-prefix", "discharged"},
 }
 
 func runDetControls(r *Run) {
@@ -70,6 +73,7 @@ func runDetControls(r *Run) {
 	detGlobalWrites(r2, sc, S)
 	detFloat(r2, sc, S)
 	detLocalTime(r2, sc, S)
+	detSharedAliasWrites(r2, sc, S, "R12")
 	nOK := 0
 	for _, e := range controlExpect {
 		found := ""
@@ -90,7 +94,7 @@ func runDetControls(r *Run) {
 	// the clean control must carry no violated obligation
 	var noisy []string
 	for _, o := range r2.Obls {
-		if o.Status == "violated" && (strings.Contains(o.Key, "CtlClean") || strings.Contains(o.Key, "CtlUTCTimeYear") || strings.Contains(o.Key, "CtlTimestampOnly")) {
+		if o.Status == "violated" && (strings.Contains(o.Key, "CtlClean") || strings.Contains(o.Key, "CtlUTCTimeYear") || strings.Contains(o.Key, "CtlTimestampOnly") || strings.Contains(o.Key, "CtlFreshNumberMutated")) {
 			noisy = append(noisy, o.Key)
 		}
 	}
